@@ -23,7 +23,7 @@ CORR = "Coq model of the code + correspondence and property predicates evaluated
 CHECKS = {
     "C01": C("proof", COQ, "Theorems (coq/Properties/C01.v) for every schema, document, range and slice: Node.replace and ReplaceStep.apply return a VALID document whenever they return one, given a valid document and a slice whose open sides are non-leaf nodes with canonical marks and whose other nodes are valid (OpenOK; closed slice = valid nodes; the empty slice needs nothing) - proved through the whole rebuild (replace_outer, two/three-way, add_range, close, prepare_slice, resolve). The other clauses (refusal instead of exception; the slices that replace-around, mark and node steps build before calling Node.replace) are evaluated per case: Step model (all eight step types: apply/get_map/invert/map/merge) compared with the implementation on adversarial primitive steps (wrap-like and lift-like replace-around steps with wrappers that cannot hold the gap, JSON round-tripped steps) and on every step the transform API emits; the predicate is the Coq validity checker `check` (= C07's `valid`, theorem check_iff) on the implementation's result, plus 'no internal error class'. Silent invalid results of replace-around steps with a closed wrapper are a recorded upstream finding (the wrapper is an invalid closed node, outside the theorem's hypothesis)."),
     "C02": C("proof", COQ, "Theorems (coq/Properties/C02.v) for every schema, valid document, range and slice whose open sides have the claimed depth (Shape - true of every slice cut from a document): Node.replace returns a document whose token sequence is EXACTLY old[:from] ++ inner tokens of the slice ++ old[to:] (tokens compared up to Python's True==1 on attribute values), with the root's markup unchanged; the size changes by slice size minus range size; with valid off-spine slice nodes the result is valid (C01). Proved through resolve (a position is a token index), add_range, two/three-way rebuild, close, prepare_slice and replace_outer, with text merging and UTF-16 cuts. Cutting a slice (tokens in the range, open depths), re-inserting a cut slice and the error class of refused replaces (ReplaceError / split surrogate pair) are evaluated in Coq per case; the function-for-function model of cut/resolve/slice/replace agrees with the implementation on every observable."),
-    "C03": C("exploration", CORR, "For every applied step (primitive and emitted by every high-level operation): size delta = sum(new-old) over the map's ranges and every old token outside the ranges is found at the mapped position (mark/attr steps: same token shape), evaluated in Coq over all positions. Replace-around steps with an empty gap are a recorded upstream finding."),
+    "C03": C("proof", COQ, "Theorem (coq/Properties/C03.v) for replace steps - the step every deletion, insertion and paste compiles to - for every schema, valid document, range and depth-consistent slice: the size changes by (new - old) of the map's range and every old token before / after the range is found, unchanged, at the position StepMap.map sends it to (tokens compared up to True==1; the meaning of map is C08's theorems). For replace-around, mark, attribute, node-mark steps and for the steps emitted by every high-level operation the same statement is evaluated in Coq over all positions of every case (mark/attr steps: same token shape). Replace-around steps with an empty gap are a recorded upstream finding."),
     "C04": C("proof", COQ, "Theorems (coq/Properties/C04.v): the recorded steps/docs/maps of a transform stay aligned and replay exactly over ANY sequence of attempted steps, including refused ones (history_Inv, history_replay). Exact single-step undo, inverse maps and whole-history undo are evaluated in Coq on random histories of up to 12 transform operations and on primitive steps (exploration strength for those clauses)."),
     "C05": C("proof", COQ, "Theorems (coq/Properties/C05.v) over the value-level codec, for every schema with distinct type names: decoding the encoding of a mark, node, fragment, slice or any of the eight step types gives back the very same value (so: equal object, identical JSON again, identical effect and map of a decoded step on every document; every step type is dispatched by its published stepType name). Hypotheses are the shapes the library builds (declared attributes in declaration order, rank-sorted marks, non-empty text, empty-content slice = Slice.empty). The model is compared with the implementation after a real json.dumps/json.loads on every case; aliasing of live attribute objects is monitored on the implementation (outside a value model)."),
     "C06": C("proof", COQ, "Brzozowski-derivative semantics of content expressions and a bisimulation certificate checker proved sound for all expressions and automata (check_bisim_sound, check_bisim_prefix, deriv_ok). Every quick run evaluates the checker in Coq against the automaton the implementation compiled for every expression of syntax-tree size <= 3 over {a, b, group}, smaller sweeps over non-generatable and inline alphabets, and random nested expressions: for each of them the statement holds for ALL child sequences. Malformed expressions and the dead-end rule are compared with an oracle computed in Coq."),
